@@ -282,8 +282,8 @@ ObsDir ==
   /\ Live("dir")
   /\ nobs' = nobs + 1
   /\ IF FaultyNF THEN UNCHANGED <<viol, bad>>
-     ELSE IF ToSet(Ev.files) \ ToSet(Ev.segs) # {} THEN /\ V("DirExtra") /\ bad' = TRUE
-     ELSE IF ToSet(Ev.segs) \ ToSet(Ev.files) # {} THEN /\ V("DirMissing") /\ bad' = TRUE
+     ELSE IF ToSet(Ev.files) \ ToSet(Ev.segs) # {} THEN /\ V("DirExtra") /\ UNCHANGED bad
+     ELSE IF ToSet(Ev.segs) \ ToSet(Ev.files) # {} THEN /\ V("DirMissing") /\ UNCHANGED bad      \* keep judging: what a missing file costs is C01/C03's business
      ELSE UNCHANGED <<viol, bad>>
   /\ Same
 
